@@ -53,7 +53,7 @@ WORLD = {}     # world parameters of the configuration being replayed (resources
 
 def world_args(consts):
     return dict(nres=max(consts.get('NRes', 0), 1), resinit=consts.get('ResInit', 2),
-                reskind=consts.get('_reskind', 'res'))
+                reskind=consts.get('_reskind', 'res'), horizon=consts.get('Horizon', float('inf')))
 
 
 def _run_one(args):
@@ -66,9 +66,15 @@ def explore(check, obs, configs, limit=None, invariants=('NoFault', 'NoForeignSi
     if limit is None:
         limit = 12000 if check.tier == 'quick' else 250000
     runs = []
-    for label, consts in configs:
-        ws = check.witnesses(label, consts, emit='EmitOps', invariants=list(invariants),
-                             coverage=check.tier == 'thorough')
+    from concurrent.futures import ThreadPoolExecutor
+
+    def gen(item):
+        label, consts = item
+        return label, consts, check.witnesses(label, consts, emit='EmitOps', invariants=list(invariants),
+                                              coverage=check.tier == 'thorough', limit=limit)
+    with ThreadPoolExecutor(3) as ex:          # the TLC runs of the configurations overlap
+        generated = list(ex.map(gen, configs))
+    for label, consts, ws in generated:
         runs += [(p, t, consts['NRoots']) for p, t in replay(check, ws, consts, limit=limit)]
     if obs is not None:
         judge(check, obs, runs)
